@@ -82,6 +82,9 @@ func buildPointerCodec(schema Schema, typ reflect.Type) (Codec, error) {
 	if err != nil {
 		return nil, err
 	}
+	if schema.Type == "array" || schema.Type == "map" {
+		return &collectionPointerCodec{PointerCodec{Codec: c}}, nil
+	}
 	return &PointerCodec{Codec: c}, nil
 }
 
